@@ -5,7 +5,7 @@ cd "$(dirname "$0")/.."
 export GOFLAGS=-mod=mod GOPROXY=off GOSUMDB=off GOTOOLCHAIN=local CGO_ENABLED=0
 mkdir -p build evidence replays coq/cases
 cp /repo/go.sum harness/go.sum 2>/dev/null || true
-(cd harness && for d in cmd/*/; do n=$(basename $d); go build -tags verif -o ../build/znh_$n ./cmd/$n; done)
+(cd harness && for d in cmd/*/; do n=$(basename $d); go build -tags verif -o ../build/znh_$n ./cmd/$n || echo "warning: harness $n does not build (its check will report it)"; done)
 if [ -x tools/gen.sh ]; then tools/gen.sh; fi
 python3 -c "import sys; sys.path.insert(0,'tools'); from vlib import core; core.coq_makefile()"
 # full .vo build of the cone of every claimed property (never -vos)
